@@ -889,11 +889,11 @@ where
     /// ```
     pub fn clear(&mut self) {
         // SAFETY: `self.entity_allocator` contains entries for the entities stored in this world's
-        // archetypes.
+        // archetypes, and `self.len` is the number of entities stored in them.
         unsafe {
-            self.archetypes.clear(&mut self.entity_allocator);
+            self.archetypes
+                .clear(&mut self.entity_allocator, &mut self.len);
         }
-        self.len = 0;
     }
 
     /// Returns the number of entities in the world.
